@@ -10,7 +10,7 @@ import GT.Lemmas.RepAutPairs
 
 set_option linter.unusedSectionVars false
 
-namespace GT
+namespace GT.RepW
 
 /-! ## building a dict from distinct fresh keys -/
 
@@ -385,4 +385,4 @@ theorem freelyReducedElements_spec (ρ : Rep n R) (L : Nat) (maxlen : Bool) (res
       (labelOK_of_edgeWords ρ _ hp rfl) (memoOK_nil _ _ _) hr
 
 end Rep
-end GT
+end GT.RepW
